@@ -4,6 +4,7 @@ import (
 	"math/big"
 
 	"github.com/aergoio/aergo/v2/contract"
+	"github.com/aergoio/aergo/v2/contract/name"
 	"github.com/aergoio/aergo/v2/fee"
 	"github.com/aergoio/aergo/v2/internal/common"
 	"github.com/aergoio/aergo/v2/state"
@@ -22,15 +23,24 @@ import (
 // ------------------------------------------------------------------------------------------------
 
 const (
-	vfLgSender = iota // A: the tx sender (always exists)
-	vfLgOther         // B: an ordinary second account
-	vfLgBystander     // U: never named by the tx
-	vfLgVault         // aergo.vault (special account used as a plain recipient)
-	vfLgSystem        // aergo.system (custody of stakes)
-	vfLgName          // aergo.name (custody of name fees until an owner is set)
-	vfLgCreated       // the contract id a DEPLOY tx of A creates (filled in per tx)
+	vfLgSender    = iota // A: the tx sender (always exists)
+	vfLgOther            // B: an ordinary second account
+	vfLgBystander        // U: never named by the tx
+	vfLgVault            // aergo.vault (special account used as a plain recipient)
+	vfLgSystem           // aergo.system (custody of stakes)
+	vfLgName             // aergo.name (custody of name fees until an owner is set)
+	vfLgCreated          // the contract id a DEPLOY tx of A creates (filled in per tx)
 	vfLgN
 )
+
+// vfLgNameEntry: one entry of the name registry that an EARLIER block committed (pre-state of the step).
+type vfLgNameEntry struct {
+	name        string
+	owner, dest int // account indices
+}
+
+// vfLgNames is read by vfLgWorld: the registry entries to commit into the storage trie of aergo.name.
+var vfLgNames []vfLgNameEntry
 
 type vfLedger struct {
 	bs      *state.BlockState
@@ -145,6 +155,22 @@ func vfLgWorld(otherKind int, gasPrice *big.Int) *vfLedger {
 		if i == vfLgOther && otherKind == 2 {
 			st.CodeHash = common.Hasher([]byte("vf-code"))
 		}
+		if i == vfLgName && len(vfLgNames) > 0 {
+			// the registry entries were written and committed by an earlier block: real registerOwner, real storage trie
+			// update and staging (statedb.VFCommitStorage); the account state carries the resulting storage root
+			cs, err := statedb.OpenContractState(w.ids[i], st, sdb)
+			if err != nil {
+				vf.Fail("harness-setup")
+			}
+			for _, e := range vfLgNames {
+				if err := name.VFRegister(cs, []byte(e.name), w.ids[e.owner], w.ids[e.dest]); err != nil {
+					vf.Fail("harness-setup")
+				}
+			}
+			if err := statedb.VFCommitStorage(cs); err != nil {
+				vf.Fail("harness-setup")
+			}
+		}
 		if err := sdb.PutState(types.ToAccountID(w.ids[i]), st); err != nil {
 			vf.Fail("harness-setup")
 		}
@@ -181,12 +207,12 @@ func vfLgPick(name string, mask int, n int) int {
 // vfLgTx runs one transaction through the real NewTxExecutor closure (Snapshot -> executeTx -> Rollback on error)
 // and asserts the obligations selected by mode (1 = C01.a conservation, 2 = C03.a atomicity).
 func vfLgTx(mode int, obC01, obC03, rp string) {
-	verMask := vf.Param("verMask", 0x1c)  // bit v = hardfork version v
-	typMask := vf.Param("typMask", 0x03)  // bit i = vfLgTxTypes[i]
-	rcvMask := vf.Param("rcvMask", 0x1f)  // recipient shapes, see below
-	feeMask := vf.Param("feeMask", 0x01)  // bit0 = fees on (public), bit1 = zero-fee network
-	lenMask := vf.Param("lenMask", 0x0f)  // payload length representatives
-	priceSel := vf.Param("priceMode", 0)  // 0 = symbolic gas price, k>0 = concrete representative k
+	verMask := vf.Param("verMask", 0x1c) // bit v = hardfork version v
+	typMask := vf.Param("typMask", 0x03) // bit i = vfLgTxTypes[i]
+	rcvMask := vf.Param("rcvMask", 0x1f) // recipient shapes, see below
+	feeMask := vf.Param("feeMask", 0x01) // bit0 = fees on (public), bit1 = zero-fee network
+	lenMask := vf.Param("lenMask", 0x0f) // payload length representatives
+	priceSel := vf.Param("priceMode", 0) // 0 = symbolic gas price, k>0 = concrete representative k
 	ver := int32(vfLgPick("ver", verMask, 6))
 	typ := vfLgTxTypes[vfLgPick("type", typMask, len(vfLgTxTypes))]
 	zeroFee := vfLgPick("feeMode", feeMask, 2) == 1
@@ -212,7 +238,8 @@ func vfLgTx(mode int, obC01, obC03, rp string) {
 	}
 
 	// recipient shape: 0 B plain, 1 B new, 2 B contract, 3 self, 4 aergo.vault, 5 none (deploy: the created contract),
-	// 6 none (multicall: the sender itself)
+	// 6 none (multicall: the sender itself), 7 recipient = a NAME that an earlier block registered for the sender's own
+	// account (name.Resolve -> sender), 8 the tx ACCOUNT is that name and the recipient is the sender's address
 	var rcv, otherKind int
 	switch typ {
 	case types.TxType_DEPLOY:
@@ -220,10 +247,14 @@ func vfLgTx(mode int, obC01, obC03, rp string) {
 	case types.TxType_MULTICALL:
 		rcv = 6
 	default:
-		rcv = vfLgPick("rcv", rcvMask, 5)
+		rcv = vfLgPick("rcv", rcvMask, 9)
 	}
 	if rcv == 1 || rcv == 2 {
 		otherKind = rcv
+	}
+	vfLgNames = nil
+	if rcv == 7 || rcv == 8 {
+		vfLgNames = []vfLgNameEntry{{vfLgTheName, vfLgSender, vfLgSender}}
 	}
 	w := vfLgWorld(otherKind, gasPrice)
 
@@ -257,6 +288,13 @@ func vfLgTx(mode int, obC01, obC03, rp string) {
 		w.ids[vfLgCreated] = contract.CreateContractID(w.ids[vfLgSender], txNonce)
 	case 6:
 		rcvIdx = vfLgSender
+	case 7:
+		body.Recipient = []byte(vfLgTheName)
+		rcvIdx = vfLgSender
+	case 8:
+		body.Account = []byte(vfLgTheName)
+		body.Recipient = w.ids[vfLgSender]
+		rcvIdx = vfLgSender
 	}
 	// payload: content is irrelevant on these paths (the VM is an environment stub); the LENGTH drives the fee
 	// functions. Selector 5 = opaque slice of symbolic length 0..TxMaxSize+1024 (every length decided at once);
@@ -286,6 +324,10 @@ func vfLgTx(mode int, obC01, obC03, rp string) {
 	amount := body.GetAmountBigInt()
 	dReward := new(big.Int).Sub(post.reward, pre.reward)
 
+	if mode == 3 {
+		vfLgReplay(w, exec, tx, body, pre, post, err, obC01)
+		return
+	}
 	if err != nil {
 		// outcome REJECTED
 		vf.Reach(rp + ".rejected")
@@ -403,6 +445,34 @@ func vfLgRcvGain(amount, fee *big.Int, paysFee bool) *big.Int {
 	}
 	return g
 }
+
+// vfLgReplay (C04.a, executor half): a transaction that the executor EXECUTED (a receipt was appended: success or ERROR
+// status) has advanced the stored nonce of the sender's account to exactly tx.Nonce, which was state nonce + 1, and the
+// very same transaction offered again to the same block state is refused without any effect. A transaction that was
+// refused left the nonce alone.
+func vfLgReplay(w *vfLedger, exec TxExecFn, tx *types.Tx, body *types.TxBody, pre, post *vfLgObs, err error, ob string) {
+	if err != nil {
+		vf.Reach(ob + ".rejected")
+		vf.Assert(post.nonce[vfLgSender] == pre.nonce[vfLgSender], ob+".rejected")
+		vf.Observe("outcome", "rejected")
+		return
+	}
+	vf.Reach(ob + ".executed")
+	vf.Assert(body.Nonce == pre.nonce[vfLgSender]+1, ob+".next")
+	vf.Assert(post.nonce[vfLgSender] == body.Nonce, ob+".advanced")
+	err2 := exec(w.bs, types.NewTransaction(tx))
+	again := w.observe()
+	vf.Assert(err2 != nil, ob+".replay-refused")
+	ok := again.reward.Cmp(post.reward) == 0
+	ok = vf.And(ok, again.nrcpt == post.nrcpt)
+	for i := 0; i < vfLgN; i++ {
+		ok = vf.And(ok, again.same(post, i))
+	}
+	vf.Assert(ok, ob+".replay-no-effect")
+	vf.Observe("outcome", "executed")
+}
+
+func VF_C04_a_exec() { vfLgTx(3, "C04.a.exec", "C04.a.exec", "C04.a.exec") }
 
 func VF_C01_a() { vfLgTx(1, "C01.a", "C01.a", "C01.a") }
 func VF_C03_a() { vfLgTx(2, "C03.a", "C03.a", "C03.a") }
